@@ -305,6 +305,7 @@ def run_driver(ctx, family, scen=None, n=0, args=(), timeout=900, name=None):
     for ln in p.stdout.splitlines():
         if ln.startswith("NOTE "):
             ctx.log(ln)
+            ctx.notes.setdefault("driver_notes", []).append(ln[5:200])
     smap = {}
     if os.path.exists(scenout):
         with open(scenout) as f:
